@@ -26,6 +26,37 @@ theorem C10_gen_checks :
     Generated.C10.readerChecksPerToken = some true ∧
     Generated.C10.deadlineSynchronised = some true := by decide
 
+/-- the functions of the package that write to the encoder or to the connection themselves:
+the three one-shot transmit functions (they test the closed bit, `C10_gen_checks`), the token
+writer's two methods (they test it per token), the two closers, a read-only probe, and stream
+negotiation (`negotiateSession`, `negotiator`, `writeStreamFeatures`, `teeConn.Write`), which runs
+before the session is handed to its user.  A new function that writes on its own changes this list -/
+def expectedWireFns : List String :=
+  ["Encode", "EncodeElement", "closeSession", "lockWriteCloser.EncodeToken", "lockWriteCloser.Flush",
+   "negotiateSession", "negotiator", "outputBroken", "send", "sendError", "teeConn.Write", "writeStreamFeatures"]
+
+theorem C10_gen_wire_fns : Generated.C10.wireFns = some expectedWireFns := by decide
+
+/-- the wire functions whose behaviour with respect to closing is modelled and checked -/
+def checkedWireFns : List String :=
+  ["send", "Encode", "EncodeElement", "lockWriteCloser.EncodeToken", "lockWriteCloser.Flush", "closeSession", "sendError"]
+
+/-- **every exported method of `*Session` that can reach the wire** (Send*, Encode*, SendIQ*,
+SendMessage*, SendPresence*, UnmarshalIQ*, IterIQ*, Close, Serve, …; call graph by name, an
+over-approximation) reaches it only through the checked functions -/
+theorem C10_gen_entry_points :
+    ∃ t, Generated.C10.entryPoints = some t ∧ ∀ e ∈ t, ∀ w ∈ e.2, w ∈ checkedWireFns := by
+  refine ⟨_, rfl, by decide⟩
+
+/-- and the list contains every transmit family of the property's text -/
+theorem C10_gen_entry_points_complete :
+    ∃ t, Generated.C10.entryPoints = some t ∧
+      ∀ n ∈ ["Send", "SendElement", "Encode", "EncodeElement", "SendIQ", "SendIQElement", "EncodeIQ", "EncodeIQElement",
+        "SendMessage", "SendMessageElement", "EncodeMessage", "EncodeMessageElement", "SendPresence",
+        "SendPresenceElement", "EncodePresence", "EncodePresenceElement", "UnmarshalIQ", "UnmarshalIQElement",
+        "IterIQ", "IterIQElement", "Close", "Serve"], n ∈ t.map (·.1) := by
+  refine ⟨_, rfl, by decide⟩
+
 /-! ### Interleavings -/
 
 open Lts in
